@@ -21,6 +21,9 @@ def run(ctx: Ctx) -> None:
     sweep = run_sweep(ctx)
     report(ctx, sweep, "C06")
     extra(ctx, sweep)
+    # code -> spec: the calls of the repository's own test-suite, re-run under the other debug_trail settings (Trace_Harvest.tla)
+    from .. import harvest
+    harvest.check(ctx, "C06")
 
 
 def extra(ctx: Ctx, sweep: dict) -> None:
